@@ -313,6 +313,23 @@ def run_case(case):
                     if not same_outcome(slot, o):
                         fail("a batch slot differs from the individual call",
                              "%s: slot %d: batch %s, individual %s" % (label, i, domain.describe(slot, 80), domain.describe(o, 80)))
+        # ---- elements that pass one and the same list / dictionary object, to a body that uses its arguments up
+        dp = "D%d_%d" % (case["seed"], case["idx"])
+        shared_l, shared_o = [5, 6, 7, 8], {"scale": 3, "unit": "x"}
+        dks = [0, 1, 2, 1][: 3 + case["idx"] % 2]
+        env.set_env(sc.path("envD1"), default_storage=env.mem_backend() if case["idx"] % 2 else env.fs_backend(sc.path("D1")))
+        dind = [outcome_of(lambda k=k: ffuncs.drain(dp, k, shared_l, shared_o)) for k in dks]
+        env.set_env(sc.path("envD2"), default_storage=env.mem_backend() if case["idx"] % 2 else env.fs_backend(sc.path("D2")))
+        dgot = outcome_of(lambda: ffuncs.drain.call_batch([{"prefix": dp, "k": k, "xs": shared_l, "opts": shared_o} for k in dks],
+                                                         raise_first_exception=False))
+        out["obs"]["batches_whose_elements_share_an_argument_object"] += 1
+        label = "batch over k=%s whose elements pass the same list and dictionary objects to a body that uses them up" % dks
+        if shared_l != [5, 6, 7, 8] or shared_o != {"scale": 3, "unit": "x"}:
+            fail("a call changed its caller's argument objects", "%s: %s %s" % (label, shared_l, shared_o))
+        if dgot[0] != "ret" or len(dgot[1]) != len(dind) or not all(
+                same_outcome(("raise", r) if isinstance(r, Exception) else ("ret", r), o) for r, o in zip(dgot[1], dind)):
+            fail("a batch slot differs from the individual call", "%s: batch %s, individual calls %s" % (
+                label, domain.describe(dgot, 200), domain.describe(dind, 200)))
         # ---- a batch whose elements evaluate batches of their own (rolling windows over another function), with some of the
         # inner calls memoized beforehand
         wp = "W%d_%d" % (case["seed"], case["idx"])
